@@ -103,10 +103,10 @@ func runC15(rc *RC) {
 		payload = bytes.Repeat([]byte("abcdefghijklmnopqrstuvwxyz012345"), 3*65560/32+1)[:3*65560]
 	}
 	payload2 := genPayload(rc, block)
-	closer := ch.Int("workload", 3) // 0 opener closes, 1 acceptor closes, 2 nobody (session ends)
+	closer := ch.Int("workload", 4) // 0 opener closes, 1 acceptor closes, 2 nobody (session ends), 3 both at once (crossing closes)
 	// the end that does NOT close may still hold written but unflushed bytes when the other end closes: they are
 	// flushed when the close request arrives and the closing end's reader gets them before end-of-file
-	lazyTail := !wrap && closer != 2 && ch.Chance("workload", 1, 3)
+	lazyTail := !wrap && closer < 2 && ch.Chance("workload", 1, 3)
 	rbuf := []int{1, 2, 7, 64, 1000, 70000}[ch.Int("workload", 6)]
 	sid := "sid" + strconv.Itoa(ch.Int("workload", 1000))
 	overflow := !wrap && acceptMode != 5 && ch.Chance("workload", 1, 6)
@@ -138,7 +138,7 @@ func runC15(rc *RC) {
 	var openErr, acceptErr error
 	openDone, acceptDone := false, acceptMode == 5
 	writeDoneA, writeDoneB := false, !reverse
-	var werrA, werrB, closeErrA error
+	var werrA, werrB, closeErrA, closeErrB error
 	var rdA, rdB ibbReader
 	phase := 0 // 1: close allowed
 	ctx, cancel := context.WithTimeout(p.Ctx, 10*time.Minute)
@@ -212,10 +212,10 @@ func runC15(rc *RC) {
 				simrt.WaitUntil("reader-b:go", func() bool { return readGo })
 				readAll(rc, connB, &rdB, rbuf)
 			})
-			if closer == 1 {
+			if closer == 1 || closer == 3 {
 				simrt.WaitUntil("closer-b", func() bool { return phase >= 1 })
 				if phase == 1 {
-					connB.Close()
+					closeErrB = connB.Close()
 				}
 			}
 		})
@@ -239,7 +239,7 @@ func runC15(rc *RC) {
 		simrt.WaitUntil("writer-a:buffer-limit-set", func() bool { return bufSet || acceptErr != nil })
 		werrA = writeAll(connA, connA.Flush, payload, "wa", tailA)
 		writeDoneA = true
-		if closer == 0 {
+		if closer == 0 || closer == 3 {
 			simrt.WaitUntil("closer-a", func() bool { return phase >= 1 })
 			if phase == 1 {
 				closeErrA = connA.Close()
@@ -382,9 +382,22 @@ func runC15(rc *RC) {
 	if closer != 2 {
 		rc.S.Run(func() bool {
 			// the reader(s) reached the end and the closing call itself has returned
-			return rdB.done && (!reverse || rdA.done) && (closer != 0 || opener.Done()) && (closer != 1 || accT.Done())
+			return rdB.done && (!reverse || rdA.done) && ((closer != 0 && closer != 3) || opener.Done()) && ((closer != 1 && closer != 3) || accT.Done())
 		}, 400000, time.Minute)
 		rc.Evals["C15.c2"]++
+		if closer == 3 {
+			// crossing closes: each Close call returns, nobody panics (c6), and both readers get everything and end-of-file
+			rc.Check("C15.c2", "crossing-close-stuck", opener.Done() && accT.Done(), "both ends closed at once and a Close call has not returned (opener done=%v, acceptor done=%v); stuck %v", opener.Done(), accT.Done(), rc.S.Stuck())
+			_ = closeErrB
+			// what each side still had in flight when the other side's close completed may be lost (each end has declared
+			// itself done); what was read is a prefix of what was written, and every Read call has returned
+			checkPrefix("a->b crossing close", rdB.got, payload)
+			rc.Check("C15.c2", "reader-stuck-after-crossing-close:a->b", rdB.done, "both ends closed but the acceptor's reader is still blocked (%d/%d bytes); stuck %v", len(rdB.got), len(payload), rc.S.Stuck())
+			if reverse {
+				checkPrefix("b->a crossing close", rdA.got, payload2)
+				rc.Check("C15.c2", "reader-stuck-after-crossing-close:b->a", rdA.done, "both ends closed but the opener's reader is still blocked (%d/%d bytes); stuck %v", len(rdA.got), len(payload2), rc.S.Stuck())
+			}
+		}
 		if closer == 0 {
 			// the opener closed: the acceptor's reader drains and reads end-of-file
 			if !rdB.done || !rdB.eof {
@@ -417,7 +430,7 @@ func runC15(rc *RC) {
 		}
 	}
 	// phase 5: a packet for the session that was closed is refused like one for an unknown session
-	if closer != 2 && !wrap && rdB.done && rdB.eof && ch.Chance("workload", 1, 2) {
+	if closer < 2 && !wrap && rdB.done && rdB.eof && ch.Chance("workload", 1, 2) {
 		n := 0
 		for _, e := range ParseWire(p.CA.Out().Tap).Elems {
 			for _, t := range e.Toks {
